@@ -188,6 +188,125 @@ except Exception as ex:
     problems.append("jit_compile arms: %s" % ex)
     lines += ["def armSrc (e : Em) (helperAddr : Nat → Option Nat) (pc : Nat) (i : Insn) (next : Option Insn) : Except Fail (Em × Nat) := .error .err",
               "def armSrcOk : Bool := false", "def loopPreShape : Bool := false", "def loopPostShape : Bool := false", "def armCount : Nat := 0", ""]
+# ---------------------------------------------------------------- the emitter functions that are sequences of other emitter calls, prologue and epilogue
+def fn_body(name):
+    m = re.search(r"fn %s\(" % name, txt)
+    if not m: raise SyntaxError("fn %s not found" % name)
+    pe = balanced(txt, m.end() - 1, "(", ")")
+    b0 = txt.index("{", pe)
+    params = [q.strip() for q in split_top(txt[m.end():pe - 1], ",") if q.strip()]
+    return params, txt[b0 + 1:balanced(txt, b0) - 1]
+def sarg(a, env):
+    a = " ".join(a.split())
+    if a in env: return env[a]
+    if a in REGS: return a
+    if re.fullmatch(r"0x[0-9a-fA-F]+|0b[01]+|[0-9]+", a): return str(int(a, 0))
+    m = re.fullmatch(r"OperandSize::S(8|16|32|64)", a)
+    if m: return m.group(1)
+    m = re.fullmatch(r"map_register\((\d+)\)", a)
+    if m: return "(mapRegSrc %s)" % m.group(1)
+    m = re.fullmatch(r"([a-z_]+) as (u8|u32|u64)", a)
+    if m and m.group(1) in env: return "(%s %s)" % (m.group(2), env[m.group(1)])
+    m = re.fullmatch(r"\(([a-z_]+) as u32\) as i64", a)
+    if m and m.group(1) in env: return "((u32 %s : Nat) : Int)" % env[m.group(1)]
+    m = re.fullmatch(r"([a-z_]+) as i32", a)
+    if m and m.group(1) in env: return env[m.group(1)]                       # i64 -> i32 under the guard that it fits: same value
+    if a == "target as i64": return "(if target < 2 ^ 63 then (target : Int) else (target : Int) - 2 ^ 64)"
+    if a == "ebpf::STACK_SIZE as i32": return str(C["STACK_SIZE"])
+    if a == "TARGET_PC_EXIT": return "targetPcExit"
+    m = re.fullmatch(r"(0x[0-9a-fA-F]+) \| \(([a-z]+) & (0b[01]+|0x[0-9a-fA-F]+|[0-9]+)\)", a)
+    if m and m.group(2) in env: return "(%d ||| (%s &&& %d))" % (int(m.group(1), 0), env[m.group(2)], int(m.group(3), 0))
+    raise SyntaxError("argument `%s`" % a)
+def scond(c, env):
+    c = " ".join(c.split())
+    m = re.fullmatch(r"([a-z]+) >= 0", c)
+    if m and m.group(1) in env: return "0 ≤ %s" % env[m.group(1)]
+    m = re.fullmatch(r"([a-z]+) >= i32::MIN as i64 && \1 <= i32::MAX as i64", c)
+    if m and m.group(1) in env: return "-2147483648 ≤ %s ∧ %s ≤ 2147483647" % (env[m.group(1)], env[m.group(1)])
+    m = re.fullmatch(r"map_register\((\d+)\) != ([A-Z0-9]+)", c)
+    if m and m.group(2) in REGS: return "mapRegSrc %s ≠ %s" % m.groups()
+    raise SyntaxError("condition `%s`" % c)
+def seq_block(body, env, o, ind):
+    """statements -> `let e := …` lines; the block's value is `e`"""
+    body = body.strip()
+    pieces = []
+    for s_ in split_top(body, ";"):
+        s_ = s_.strip()
+        while True:      # block statements are not followed by `;`
+            m = re.match(r"(if [^{]*|match \(use_mbuff, update_data_ptr\) )\{", s_)
+            if not m: break
+            e = balanced(s_, m.end() - 1)
+            while True:
+                m2 = re.match(r"\s*else \{", s_[e:])
+                if not m2: break
+                e = balanced(s_, e + m2.end() - 1)
+            pieces.append(s_[:e]); s_ = s_[e:].strip()
+            if not s_: break
+        if s_: pieces.append(s_)
+    for s_ in pieces:
+        s_ = " ".join(s_.split())
+        m = re.fullmatch(r"self\.([a-z0-9_]+)\(mem(?:, (.*))?\)", s_)
+        if m:
+            if m.group(1) == "set_anchor":
+                if sarg(m.group(2), env) != "targetPcExit": raise SyntaxError("set_anchor target")
+                o.emit(ind, "let e := { e with exitAnchor := some e.code.size }"); continue
+            args = [sarg(a, env) for a in split_top(m.group(2), ",")] if m.group(2) else []
+            o.emit(ind, "let e := %s e %s" % (camel(m.group(1)), " ".join(args))); continue
+        m = re.match(r"if ([^{]*)\{", s_)
+        if m:
+            e1 = balanced(s_, m.end() - 1); then = s_[m.end():e1 - 1]
+            m2 = re.match(r"\s*else \{", s_[e1:])
+            o.emit(ind, "let e := if %s then" % scond(m.group(1), env)); seq_block(then, env, o, ind + 4); o.emit(ind + 4, "e")
+            o.emit(ind + 2, "else")
+            if m2:
+                e2 = balanced(s_, e1 + m2.end() - 1); seq_block(s_[e1 + m2.end():e2 - 1], env, o, ind + 4)
+                if s_[e2:].strip(): raise SyntaxError("after else")
+            o.emit(ind + 4, "e"); continue
+        m = re.match(r"match \(use_mbuff, update_data_ptr\) \{", s_)
+        if m:
+            inner = s_[m.end():balanced(s_, m.end() - 1) - 1]
+            o.emit(ind, "let e := match useMbuff, updateDataPtr with")
+            for pats, b in parse_arms(inner):
+                pq = re.fullmatch(r"\((true|false|_), (true|false|_)\)", pats[0]) if len(pats) == 1 else None
+                if not pq: raise SyntaxError("prologue pattern " + str(pats))
+                o.emit(ind + 2, "| %s, %s =>" % pq.groups()); seq_block(b.strip()[1:-1] if b.strip().startswith("{") else b, env, o, ind + 4); o.emit(ind + 4, "e")
+            continue
+        raise SyntaxError("statement `%s`" % s_[:70])
+SEQ_FNS = [("emit_modrm_reg2reg", "(r m : Nat)"), ("emit_push", "(r : Nat)"), ("emit_pop", "(r : Nat)"), ("emit_alu32", "(op src dst : Nat)"), ("emit_alu32_imm32", "(op src dst : Nat) (imm : Int)"),
+           ("emit_alu32_imm8", "(op src dst : Nat) (imm : Int)"), ("emit_alu64", "(op src dst : Nat)"), ("emit_alu64_imm32", "(op src dst : Nat) (imm : Int)"),
+           ("emit_alu64_imm8", "(op src dst : Nat) (imm : Int)"), ("emit_mov", "(src dst : Nat)"), ("emit_cmp_imm32", "(dst : Nat) (imm : Int)"), ("emit_cmp", "(src dst : Nat)"),
+           ("emit_cmp32_imm32", "(dst : Nat) (imm : Int)"), ("emit_cmp32", "(src dst : Nat)"), ("emit_load_packet", "(size base : Nat) (imm : Int)"), ("emit_load_imm", "(dst : Nat) (imm : Int)"),
+           ("emit_call", "(target : Nat)"), ("emit_jcc", "(code : Nat) (targetPc : Int)"), ("emit_jmp", "(targetPc : Int)"), ("emit_local_call", "(targetPc : Int)")]
+try:
+    rm = re.search(r"const REGISTER_MAP: \[u8; REGISTER_MAP_SIZE\] = \[([^\]]*)\];", txt)
+    regs = [x.strip() for x in rm.group(1).split(",") if x.strip()]
+    if not all(x in REGS for x in regs): raise SyntaxError("REGISTER_MAP entries")
+    lines += ["/-- `REGISTER_MAP` -/", "def registerMapSrc : Array Nat := #[%s]" % ", ".join(regs), "def mapRegSrc (r : Nat) : Nat := registerMapSrc.getD r 0", ""]
+    okf = []
+    for fn, sig in SEQ_FNS:
+        try:
+            params, body = fn_body(fn)
+            names = [q.split(":")[0].strip() for q in params if not q.startswith("&") and not q.startswith("mem")]
+            env = dict((n_, camel(n_)) for n_ in names)
+            o = Out(); seq_block(body, env, o, 2)
+            lines += ["/-- `%s` -/" % fn, "def %sSrc (e : Em) %s : Em :=" % (camel(fn), sig)] + o.lines + ["  e", ""]; okf.append("true")
+        except Exception as ex:
+            problems.append("%s: %s" % (fn, ex)); okf.append("false"); lines += ["def %sSrc (e : Em) %s : Em := e" % (camel(fn), sig), ""]
+    # prologue: the statements of jit_compile before `self.pc_locs = …`; epilogue: after the loop up to `Ok(())`
+    jm = re.search(r"fn jit_compile\(", txt); jb0 = txt.index("{", balanced(txt, jm.end() - 1, "(", ")")); jbody = txt[jb0 + 1:balanced(txt, jb0) - 1]
+    pro = jbody[:jbody.index("self.pc_locs = vec![0; prog.len() / ebpf::INSN_SIZE + 1];")]
+    lw = jbody.index("while insn_ptr * ebpf::INSN_SIZE < prog.len() {"); le = balanced(jbody, jbody.index("{", lw))
+    epi = jbody[le:]
+    if not re.fullmatch(r"\s*let mut insn_ptr: usize = 0;\s*", jbody[jbody.index("self.pc_locs = vec![0; prog.len() / ebpf::INSN_SIZE + 1];") + len("self.pc_locs = vec![0; prog.len() / ebpf::INSN_SIZE + 1];"):lw]): raise SyntaxError("between prologue and loop")
+    if not epi.rstrip().endswith("Ok(())"): raise SyntaxError("end of jit_compile")
+    epi = epi.rstrip()[:-len("Ok(())")]
+    o = Out(); seq_block(pro, {}, o, 2)
+    lines += ["/-- the prologue: the statements of `jit_compile` before the instruction loop -/", "def prologueSrc (useMbuff updateDataPtr : Bool) : Em :=", "  let e : Em := {}"] + o.lines + ["  e", ""]
+    o = Out(); seq_block(epi, {}, o, 2)
+    lines += ["/-- the epilogue: the statements of `jit_compile` after the instruction loop -/", "def epilogueSrc (e : Em) : Em :="] + o.lines + ["  e", ""]
+    lines += ["def seqFnsSrcOk : Bool := %s" % " && ".join(okf), ""]
+except Exception as ex:
+    problems.append("sequence functions: %s" % ex); lines += ["def seqFnsSrcOk : Bool := false", ""]
 for p in problems: lines.append("/- not translated: %s -/" % p.replace("-/", "- /"))
 lines += ["end Rbpf.Generated.Jit", ""]
 new = "\n".join(lines)
